@@ -61,7 +61,8 @@ PROPS = {
     "C09": dict(
         lean=["Rscp.Props.C09", "Rscp.Tie.Client"],
         streams=[dict(name="hist", quick=250, thorough=5000, thorough_seeds=3),
-                 dict(name="auth", quick=1, thorough=1)],
+                 dict(name="auth", quick=1, thorough=1),
+                 dict(name="tcp", quick=24, thorough=600, thorough_seeds=2)],
         trusted_base=["token-level abstraction of the byte stream (as C08)"],
     ),
     "C16": dict(
